@@ -121,6 +121,8 @@ extern void ExpandLine(char const* TokNam, unsigned TokenNum, struct as_dynstr* 
 
 extern void KillCtrl(char* Line);
 
+extern void KillCtrlDyn(as_dynstr_t* p_str);
+
 extern void AddCopyright(char const* NewLine);
 
 extern void WriteCopyrights(TSwitchProc NxtProc);
